@@ -52,10 +52,12 @@ FirstSeen(es, seen) == IF es = <<>> THEN <<>>
 LayoutShapes(es) == MapS(LAMBDA key : LayerShapes(key, SelectSeq2(es, LAMBDA e : KeyOf(e) = key)), FirstSeen(es, {}))
 
 PInst(i) == [name |-> i.name, cell |-> i.cell, loc |-> i.loc, refl |-> i.refl, rot |-> IF i.angle < 0 THEN 0 ELSE i.angle]
-PLayout(c) == [name |-> c.name, instances |-> MapS(PInst, c.insts), annotations |-> c.annots, shapes |-> LayoutShapes(c.elems)]
+\* a view carries a name of its own (optional field "lname"; by default the cell's name); references go by the CELL's name
+LName(c) == IF "lname" \in DOMAIN c THEN c.lname ELSE c.name
+PLayout(c) == [name |-> LName(c), instances |-> MapS(PInst, c.insts), annotations |-> c.annots, shapes |-> LayoutShapes(c.elems)]
 \* abstract: shapes per layer number; `byl` is a sequence of [layer, shapes] (order unspecified in the raw model: a map)
 PAbsLayer(purpose, ls) == LayerShapes(<<ls.layer, PurpNum(ls.layer, purpose)>>, MapS(LAMBDA s : [s EXCEPT !.net = ""], ls.shapes))
-PAbstract(c, a) == [name |-> c.name, outline |-> PPoly("", a.outline),
+PAbstract(c, a) == [name |-> LName(c), outline |-> PPoly("", a.outline),
                     ports |-> MapS(LAMBDA p : [net |-> p.net, shapes |-> MapS(LAMBDA ls : PAbsLayer("Pin", ls), p.shapes)], a.ports),
                     blockages |-> MapS(LAMBDA ls : PAbsLayer("Obstruction", ls), a.blockages)]
 PCell(c) == [name |-> c.name, layout |-> IF c.has_layout THEN <<PLayout(c)>> ELSE <<>>,
